@@ -23,7 +23,9 @@ BASE = '''printf :: (f: str, n: i64) extern;
 mark :: (n: i64) { printf("\\n@%ld\\n", n); }
 pr :: (v: i64) { printf("%ld ", v); }
 In :: struct { v: i32, w: [2]i32 };
-Mid :: struct { i: In, a: [2]In, pm: ^mut In, pi: ^In, o: ?In, ap: [1]^In, am: [1]^mut In };
+Mid :: struct { i: In, a: [2]In, pm: ^mut In, pi: ^In, o: ?In, ap: [1]^In, am: [1]^mut In, op: ?^In, om: ?^mut In };
+idp :: (p: ^Mid) -> ^Mid { p }
+idpm :: (p: ^mut Mid) -> ^mut Mid { p }
 gg :: comptime { In.{ v = 71, w = i32.[72, 73] } };
 show_in :: (x: In) { pr(i64.(x.v)); pr(i64.(x.w[0])); pr(i64.(x.w[1])); }
 show_mid :: (x: Mid) {
@@ -35,7 +37,7 @@ show_mid :: (x: Mid) {
 SETUP = '''t1 := In.{ v = 1, w = i32.[2, 3] };
 t2 := In.{ v = 4, w = i32.[5, 6] };
 t3 := In.{ v = 40, w = i32.[41, 42] };
-lm := Mid.{ i = In.{ v = 7, w = i32.[8, 9] }, a = In.[In.{ v = 10, w = i32.[11, 12] }, In.{ v = 13, w = i32.[14, 15] }], pm = ^mut t1, pi = ^t2, o = In.{ v = 16, w = i32.[17, 18] }, ap = .[^t2], am = .[^mut t1] };'''
+lm := Mid.{ i = In.{ v = 7, w = i32.[8, 9] }, a = In.[In.{ v = 10, w = i32.[11, 12] }, In.{ v = 13, w = i32.[14, 15] }], pm = ^mut t1, pi = ^t2, o = In.{ v = 16, w = i32.[17, 18] }, ap = .[^t2], am = .[^mut t1], op = ^t2, om = ^mut t1 };'''
 
 
 def fresh_mem():
@@ -44,7 +46,7 @@ def fresh_mem():
     t3 = {"v": 40, "w": [41, 42]}
     lm = {"i": {"v": 7, "w": [8, 9]}, "a": [{"v": 10, "w": [11, 12]}, {"v": 13, "w": [14, 15]}],
           "pm": ("ptr", t1, True), "pi": ("ptr", t2, False), "o": ["some", {"v": 16, "w": [17, 18]}],
-          "ap": [("ptr", t2, False)], "am": [("ptr", t1, True)]}
+          "ap": [("ptr", t2, False)], "am": [("ptr", t1, True)], "op": ["some", ("ptr", t2, False)], "om": ["some", ("ptr", t1, True)]}
     return t1, t2, lm, t3
 
 
@@ -61,12 +63,17 @@ def leaves_mid(m):
 def copy_mid(m):
     """value copy: pointers keep pointing at the same objects"""
     return {"i": copy.deepcopy(m["i"]), "a": copy.deepcopy(m["a"]), "pm": m["pm"], "pi": m["pi"], "o": copy.deepcopy(m["o"]),
-            "ap": list(m["ap"]), "am": list(m["am"])}
+            "ap": list(m["ap"]), "am": list(m["am"]), "op": list(m["op"]), "om": list(m["om"])}
 
 
 # types: "Mid", "In", "AIn" ([2]In), "AI" ([2]i32), "i32", "PMIn" (^mut In), "PIn" (^In), "OIn" (?In), "PMMid", "PMid"
 STEPS = {
-    "Mid": [(".i", "In"), (".a", "AIn"), (".pm", "PMIn"), (".pi", "PIn"), (".o", "OIn"), (".ap", "APIn"), (".am", "APMIn")],
+    "Mid": [(".i", "In"), (".a", "AIn"), (".pm", "PMIn"), (".pi", "PIn"), (".o", "OIn"), (".ap", "APIn"), (".am", "APMIn"), (".op", "OPIn"), (".om", "OPMIn")],
+    "OPIn": [("unwrap", "PIn")],
+    "OPMIn": [("unwrap", "PMIn")],
+    # pointers to pointers: every dereference on the way has to be of a `^mut`
+    "PMPIn": [("^", "PIn")],
+    "PMPMIn": [("^", "PMIn")],
     "APIn": [("[0]", "PIn")],
     "APMIn": [("[0]", "PMIn")],
     "In": [(".v", "i32"), (".w", "AI")],
@@ -74,15 +81,15 @@ STEPS = {
     "AI": [("[1]", "i32")],
     "PMIn": [("^", "In"), (".v", "i32"), (".w", "AI")],
     "PIn": [("^", "In"), (".v", "i32"), (".w", "AI")],
-    "PMMid": [("^", "Mid"), (".i", "In"), (".a", "AIn"), (".pm", "PMIn"), (".pi", "PIn"), (".ap", "APIn"), (".am", "APMIn")],
-    "PMid": [("^", "Mid"), (".i", "In"), (".a", "AIn"), (".pm", "PMIn"), (".pi", "PIn"), (".ap", "APIn"), (".am", "APMIn")],
+    "PMMid": [("^", "Mid"), (".i", "In"), (".a", "AIn"), (".pm", "PMIn"), (".pi", "PIn"), (".ap", "APIn"), (".am", "APMIn"), (".op", "OPIn"), (".om", "OPMIn")],
+    "PMid": [("^", "Mid"), (".i", "In"), (".a", "AIn"), (".pm", "PMIn"), (".pi", "PIn"), (".ap", "APIn"), (".am", "APMIn"), (".op", "OPIn"), (".om", "OPMIn")],
     "OIn": [("unwrap", "In")],
     "PMAPIn": [("^", "APIn"), ("[0]", "PIn")],
     "PAPMIn": [("^", "APMIn"), ("[0]", "PMIn")],
     "i32": [],
 }
-PTR_MUT = {"PMIn": True, "PIn": False, "PMMid": True, "PMid": False, "PMAPIn": True, "PAPMIn": False}
-UNDER = {"PMIn": "In", "PIn": "In", "PMMid": "Mid", "PMid": "Mid", "PMAPIn": "APIn", "PAPMIn": "APMIn"}
+PTR_MUT = {"PMIn": True, "PIn": False, "PMMid": True, "PMid": False, "PMAPIn": True, "PAPMIn": False, "PMPIn": True, "PMPMIn": True}
+UNDER = {"PMIn": "In", "PIn": "In", "PMMid": "Mid", "PMid": "Mid", "PMAPIn": "APIn", "PAPMIn": "APMIn", "PMPIn": "PIn", "PMPMIn": "PMIn"}
 
 
 def paths(ty, maxlen):
@@ -137,6 +144,14 @@ ROOTS = [
     Root("ptrIn-annotated-mut", "PMIn", "qe", True, "qe : ^mut In = ^mut t1;"),
     Root("ptrIn-param", "PMIn", "qp", False, None, in_helper=("qp: ^mut In", "^mut t1")),
     Root("param-ptrmut-to-array-of-ptr", "PMAPIn", "pq2", False, None, in_helper=("pq2: ^mut [1]^In", "^mut lm.ap")),
+    # a `^mut` pointer to a pointer field: the inner pointer's own type still decides
+    Root("ptrmut-to-ptr", "PMPIn", "pmp", True, "pmp := ^mut lm.pi;"),
+    Root("ptrmut-to-ptrmut", "PMPMIn", "pmm", True, "pmm := ^mut lm.pm;"),
+    # pointers that come out of a call, bound to a local and used directly
+    Root("ptr-from-call", "PMid", "rc", True, "rc := idp(^lm);"),
+    Root("ptrmut-from-call", "PMMid", "rcm", True, "rcm := idpm(^mut lm);"),
+    Root("call-returning-ptr", "PMid", "idp(^lm)", False, ""),
+    Root("call-returning-ptrmut", "PMMid", "idpm(^mut lm)", False, ""),
 ]
 
 NEW = {
@@ -170,7 +185,10 @@ def walk(mem_root, root, steps):
                 writable = False
                 tainted = True
             if s == "^":
-                cont, key = _ident_place(target)
+                if isinstance(target, _Slot):
+                    cont, key = target.holder, target.key  # the pointee is itself a pointer-typed place
+                else:
+                    cont, key = _ident_place(target)
                 continue
             cur = target
         elif not writable:
@@ -182,6 +200,13 @@ def walk(mem_root, root, steps):
         elif s == "unwrap":
             cont, key = cur, 1
     return cont, key, writable, judged
+
+
+class _Slot:
+    """the pointee of a pointer to a pointer-typed place (a field of the model memory)"""
+
+    def __init__(self, holder, key):
+        self.holder, self.key = holder, key
 
 
 class _Whole:
@@ -226,6 +251,10 @@ def make_case(root, steps, final_ty, op, paren_at, idx):
         rootval = ("ptr", lm["ap"], True)
     elif root.ty == "PAPMIn":
         rootval = ("ptr", lm["am"], False)
+    elif root.ty == "PMPIn":
+        rootval = ("ptr", _Slot(lm, "pi"), True)
+    elif root.ty == "PMPMIn":
+        rootval = ("ptr", _Slot(lm, "pm"), True)
     else:
         rootval = ("ptr", lm, PTR_MUT[root.ty])
     place = spell(root.expr, steps, paren_at)
